@@ -1564,7 +1564,17 @@ impl<'a> Parser<'a> {
         let mut members = vec![];
         while !self.check(&TokenKind::RBrace) && !self.is_at_end() {
             let member_start = self.current.span;
-            let member_id = self.parse_identifier()?;
+            // A member name is an identifier or a string literal (`"a-b" = 1`)
+            let member_id = if let TokenKind::String(name) = &self.current.kind {
+                let name = name.clone();
+                self.advance();
+                Identifier {
+                    name,
+                    span: self.span_from(member_start),
+                }
+            } else {
+                self.parse_identifier()?
+            };
             let initializer = if self.match_token(&TokenKind::Eq) {
                 Some(self.parse_assignment_expression()?)
             } else {
